@@ -318,6 +318,9 @@ class _ReadSourceGenerator:
                 if issubclass(read_type, (Char, Wchar, Int)):
                     count *= read_type.size
                     getter = f"buf[{size}:{size + count}]"
+                elif count == 0:
+                    # Nothing is unpacked for an empty array, and a block of only such arrays and bytes has no unpack at all
+                    getter = "()"
                 else:
                     getter = f"data[{slice_index}:{slice_index + count}]"
                     slice_index += count
